@@ -100,7 +100,7 @@ def _parse_tla_value(s):
     return out
 
 
-def trace_check(spec, cfg, events, scratch, shards=16, timeout=1500, env=None, tag="t"):
+def trace_check(spec, cfg, events, scratch, shards=8, timeout=1500, env=None, tag="t"):
     """
     Validate `events` (list of JSON-able dicts, each with integer field "id") against
     trace spec spec/<spec>.tla.  The spec walks the ndjson file line by line, prints
@@ -110,7 +110,7 @@ def trace_check(spec, cfg, events, scratch, shards=16, timeout=1500, env=None, t
     """
     if not events:
         return [], 0
-    shards = max(1, min(shards, (len(events) + 49) // 50))
+    shards = max(1, min(shards, (len(events) + 399) // 400))
     parts = [events[i::shards] for i in range(shards)]
 
     def run(i):
